@@ -257,8 +257,7 @@ _MOD = {}
 
 
 def mod_toy():
-    # rebuilt for every run: mapping a second molecule with the same modification Mapping objects loses the modification
-    # particle on the pinned tree (observed while building this harness; see DESIGN 8.7) - not part of this claim
+    # rebuilt for every run so that runs are independent; re-use of one mapping collection is exercised by PART['reuse']
     _MOD.clear()
     from vermouth.molecule import Block, Link
     from vermouth.forcefield import ForceField
@@ -415,8 +414,10 @@ def cases(tier):
                                 'label': 'map[%s %s eh%d h%d bonds%s sym%d]' % (''.join(kinds), layout, eh, ehh, ''.join('1' if b else '0' for b in bonds), k % n),
                                 'timeout': 600, 'path_timeout': 60, 'twin': k % 9 == 0 and not any(bonds)})
     for order in (['mA', 'A', 'B'], ['A', 'mA', 'B'], ['B', 'A', 'mA'], ['B', 'mA', 'A']):
-        out.append({'fn': 'check_mod_mapping', 'part': {'order': order}, 'label': 'modification-mapping[%s]' % ''.join(order),
-                    'timeout': 600, 'path_timeout': 60, 'twin': order[0] == 'mA'})
+        for reuse in (False, True):
+            out.append({'fn': 'check_mod_mapping', 'part': {'order': order, 'reuse': reuse},
+                        'label': 'modification-mapping[%s reuse%d]' % (''.join(order), reuse), 'timeout': 600, 'path_timeout': 60,
+                        'twin': order[0] == 'mA' and not reuse})
     for kinds in (['X', 'Y'], ['Z', 'X', 'X'], ['Y', 'Z']):
         out.append({'fn': 'check_mapping', 'part': {'kinds': kinds, 'layout': 'ascending', 'extra_heavy': False, 'extra_h': False,
                                                     'overlap': True, 'bonds': [True] * (len(kinds) * (len(kinds) - 1) // 2),
